@@ -545,7 +545,39 @@ pub fn gen_c15(tier: &str, seed: u64) -> Vec<Vec<String>> {
 fn gen_c15_records(tier: &str, seed: u64) -> Vec<Vec<String>> {
     gen_with(Opts { prop: "C15", size: true, age: false, force_rot: true, restarts: 0, cleanup: false, faults: false, ext: false, modes: true, max_ops: 40, namings: ALL, foreign: false, exist: false, bg: 0 }, tier, seed, 500, 6000)
 }
+/// C18: `reset_flw` with the SAME FileSpec and other rotation settings (rotation switched on or
+/// off): the records after the reset go to the newly specified file / family
+fn gen_c18_same_spec_reset(tier: &str, seed: u64) -> Vec<Vec<String>> {
+    let mut root = Rng::new(seed ^ 0xC18A);
+    let mut cases = Vec::new();
+    for k in 0..n_cases(tier, 40, 600) {
+        let mut r = root.fork();
+        let naming = *r.pick(ALL);
+        let (spec, has_suffix) = gen_spec(&mut r, naming);
+        let spec_args = spec.replacen("SPEC ", "", 1);
+        let cap = *r.pick(&[None, Some(8u64), Some(8192)]);
+        let rot = Some(format!("{};_;{naming};never", r.pick(&[0u64, 5, 40])));
+        let (first, second) = if r.chance(1, 2) { (None, rot) } else { (rot, None) };
+        let mut c = vec![format!("CASE flw C18 r{k}"), spec.clone()];
+        c.push(format!("CFG {}", cfg_line(&first, false, cap, false, has_suffix)));
+        let mut clock = Clock::new(&mut r);
+        let mut seq = 0u64;
+        for _ in 0..r.range(1, 6) { clock.epoch += 1; c.push(format!("W {} {} -", hex(&record(seq, r.range(2, 20))), clock.tick(&mut r))); seq += 1; }
+        c.push(format!("RESET {spec_args} {}", cfg_line(&second, false, cap, false, has_suffix)));
+        for _ in 0..r.range(1, 6) { clock.epoch += 1; c.push(format!("W {} {} -", hex(&record(seq, r.range(2, 20))), clock.tick(&mut r))); seq += 1; }
+        c.push("SHUT".into());
+        c.push("SNAP".into());
+        c.push("END".into());
+        cases.push(c);
+    }
+    cases
+}
 pub fn gen_c18(tier: &str, seed: u64) -> Vec<Vec<String>> {
+    let mut v = gen_c18_same_spec_reset(tier, seed);
+    v.extend(gen_c18_main(tier, seed));
+    v
+}
+fn gen_c18_main(tier: &str, seed: u64) -> Vec<Vec<String>> {
     gen_with(Opts { prop: "C18", size: true, age: false, force_rot: true, restarts: 0, cleanup: false, faults: false, ext: true, modes: false, max_ops: 40, namings: ALL, foreign: false, exist: false, bg: 0 }, tier, seed, 500, 6000)
 }
 pub fn gen_c19(tier: &str, seed: u64) -> Vec<Vec<String>> {
@@ -676,7 +708,9 @@ pub fn gen_c11(tier: &str, seed: u64) -> Vec<Vec<String>> {
                     c.push("SNAP".into());
                     c.push("LINK".into());
                     // a newly started logger on the same directory
-                    let append = r.chance(1, 2);
+                    // (TimestampsDirect + append onto `.restart-NNNN` siblings is the known finding
+                    //  C06-tsd-append-after-restart-files: kept out of the random stream)
+                    let append = r.chance(1, 2) && naming != "tsd";
                     let mut cl2 = Clock { epoch: clock.epoch + *r.pick(&[0i64, 1, 70]), small: false };
                     c.push(format!("RESTART {}", cfg_line(&rot, append, None, symlink, has_suffix)));
                     let mut s2 = seq + 1;
@@ -711,7 +745,7 @@ pub fn gen_c11(tier: &str, seed: u64) -> Vec<Vec<String>> {
             }
             pre.push("SHUT".into());
             cl.epoch += 2;
-            pre.push(format!("RESTART {}", cfg_line(&backlog_rot, r.chance(1, 2), None, symlink, has_suffix)));
+            pre.push(format!("RESTART {}", cfg_line(&backlog_rot, r.chance(1, 2) && naming != "tsd", None, symlink, has_suffix)));
             let victim = hex(&record(sq, r.range(2, 16)));
             let vnow = cl.tick(&mut r);
             for p in points.iter().filter(|p| p.starts_with("compress") || p.starts_with("cleanup")) {
@@ -723,7 +757,7 @@ pub fn gen_c11(tier: &str, seed: u64) -> Vec<Vec<String>> {
                     c.push(format!("CW {victim} {vnow} {p} {occ}"));
                     c.push("SNAP".into());
                     let mut cl2 = Clock { epoch: cl.epoch + *r.pick(&[1i64, 2, 70]), small: false };
-                    c.push(format!("RESTART {}", cfg_line(&backlog_rot, r.chance(1, 2), None, symlink, has_suffix)));
+                    c.push(format!("RESTART {}", cfg_line(&backlog_rot, r.chance(1, 2) && naming != "tsd", None, symlink, has_suffix)));
                     let mut s2 = sq + 1;
                     for _ in 0..r.range(3, 7) {
                         cl2.epoch += 1;
